@@ -23,7 +23,7 @@ const ALL_CAPS: u32 = frames::CAP_20 | frames::CAP_40 | frames::CAP_50 | frames:
 fn level(t: Tier) -> Level {
     Level {
         category: "model_checking",
-        rule: if t.thorough() { "model GATE (38 actions: DF11 CA 0/3/4/5/7, DF17, DF20/21 with empty MB, five BDS 1,7 advertisements, 1,7 with a reserved bit, 2,0, three 3,0, valid 4,0, 5,0 right/left turn, 6,0 climb/descent, 5,0 with a status bit clear, 4,0 with a reserved bit, an ADS-B velocity squitter, a slow 5,0, two replies with flight status 5/7, five BDS 1,0 reports, a westbound 5,0 shaped like a 6,0, bystander) all orders to depth 5 x {default,-R,-U,-U -R}; register sweeps: every value field of 4,0/5,0/6,0 over its whole range x 3 baselines, the full GS x TAS product, all 32 status-bit subsets, every single reserved bit, BDS 1,7 capability words (single bits, stride), under open and closed gates" } else { "model GATE (38 actions: DF11 CA 0/3/4/5/7, DF17, DF20/21 with empty MB, five BDS 1,7 advertisements, 1,7 with a reserved bit, 2,0, three 3,0, valid 4,0, 5,0 right/left turn, 6,0 climb/descent, 5,0 with a status bit clear, 4,0 with a reserved bit, an ADS-B velocity squitter, a slow 5,0, two replies with flight status 5/7, five BDS 1,0 reports, a westbound 5,0 shaped like a 6,0, bystander) all orders to depth 4 x {default,-R,-U,-U -R}; register sweeps: every value field of 4,0/5,0/6,0 over its whole range x 3 baselines, all 32 status-bit subsets, every single reserved bit, BDS 1,7 capability words (single bits, stride), under open and closed gates" },
+        rule: if t.thorough() { "model GATE (40 actions: DF11 CA 0/3/4/5/7, DF17, DF20/21 with empty MB, five BDS 1,7 advertisements, 1,7 with a reserved bit, 2,0, three 3,0, valid 4,0, 5,0 right/left turn, 6,0 climb/descent, 5,0 with a status bit clear, 4,0 with a reserved bit, an ADS-B velocity squitter, a slow 5,0, two replies with flight status 5/7, five BDS 1,0 reports, two DF18 squitters (CF 5 / 2), a westbound 5,0 shaped like a 6,0, bystander) all orders to depth 5 x {default,-R,-U,-U -R}; register sweeps: every value field of 4,0/5,0/6,0 over its whole range x 3 baselines, the full GS x TAS product, all 32 status-bit subsets, every single reserved bit, BDS 1,7 capability words (single bits, stride), under open and closed gates" } else { "model GATE (40 actions: DF11 CA 0/3/4/5/7, DF17, DF20/21 with empty MB, five BDS 1,7 advertisements, 1,7 with a reserved bit, 2,0, three 3,0, valid 4,0, 5,0 right/left turn, 6,0 climb/descent, 5,0 with a status bit clear, 4,0 with a reserved bit, an ADS-B velocity squitter, a slow 5,0, two replies with flight status 5/7, five BDS 1,0 reports, two DF18 squitters (CF 5 / 2), a westbound 5,0 shaped like a 6,0, bystander) all orders to depth 4 x {default,-R,-U,-U -R}; register sweeps: every value field of 4,0/5,0/6,0 over its whole range x 3 baselines, all 32 status-bit subsets, every single reserved bit, BDS 1,7 capability words (single bits, stride), under open and closed gates" },
         assumptions: vec![
             "oracle (refmodel/bds.rs): an MB-derived field group changes only if the reference gate of the implementation's own pre-state allows it (CA >= 4 recorded or -R; for 4,0/5,0/6,0 the register advertised or -R) and the MB passes the reference validity of the register the group belongs to, and then equals the Doc 9871 decoding (floor or truncation for signed values); conversely a plausible register (every status bit set, every value field non-zero, limits as stated) that is not weakly valid as an earlier register must be decoded".into(),
             "BDS 4,0 mode/source status bits are left unconstrained in the only-if direction; inputs on which strong and weak validity of an earlier register disagree take the lenient branch (counted as ':may')".into(),
@@ -80,6 +80,10 @@ fn gate_actions() -> Vec<Action> {
     }
     // a westbound BDS 5,0 (240 kt) that also has every status bit of the 6,0 layout
     v.push(Action::line("DF20 BDS5,0 west 240 kt (also 6,0-shaped)", &frames::df20(A, alt, frames::mb_bds50(&B50 { s_roll: 1, roll_sign: 0, roll: 29, s_trk: 1, trk_sign: 1, trk: 600, s_gs: 1, gs: 120, s_tar: 1, tar_sign: 0, tar: 9, s_tas: 1, tas: 118 }))));
+    // DF18 squitters: bits 6-8 are the control field CF (5 and 2 here), never a capability
+    for cf in [5u32, 2] {
+        v.push(Action::line(&format!("DF18 CF{cf} TC11"), &frames::es(18, cf, A, frames::me_airpos(11, 0, 0, frames::ac12_for_alt(7000), 0, 0, 93000, 51372))));
+    }
     v.push(Action::line("B:DF11 CA5", &frames::df11(5, B, 0)));
     v.push(Action::line("B:DF20 BDS5,0", &frames::df20(B, alt, valid_bds50(false))));
     v
@@ -118,9 +122,18 @@ enum Prefix {
     /// DF11 CA5, then (order 0) 1,0 / 1,7 all / 1,0' or (order 1) 1,7 all / 1,0 / 1,0', where the second
     /// report differs from the first in MB bit `bit` only (base 0: all other bits clear, base 1: set)
     Toggle10 { order: u8, base: u8, bit: u8 },
+    /// Open, then an unambiguous 5,0 (baseline `b`), then an unambiguous 6,0 that has the heading (less its
+    /// last bit, which is the 5,0 track status) and the IAS of the dual-layout register that follows
+    After50And60 { b: u8, hdg_ias_of: u64 },
 }
 
 fn parse_prefix(s: &str) -> Prefix {
+    if let Some(rest) = s.strip_prefix("After50And60") {
+        let n: Vec<u64> = rest.split(|c: char| !c.is_ascii_digit()).filter(|x| !x.is_empty()).filter_map(|x| x.parse().ok()).collect();
+        if n.len() == 2 {
+            return Prefix::After50And60 { b: n[0] as u8, hdg_ias_of: n[1] };
+        }
+    }
     if let Some(rest) = s.strip_prefix("Toggle10") {
         let n: Vec<u8> = rest.split(|c: char| !c.is_ascii_digit()).filter(|x| !x.is_empty()).filter_map(|x| x.parse().ok()).collect();
         if n.len() == 3 {
@@ -151,6 +164,19 @@ fn prefix_lines(p: Prefix, addr: u32) -> Vec<Vec<u8>> {
             frames::df17(5, addr, frames::me_velocity(&frames::Vel { st: 1, dew: 0, vew: 451, dns: 0, vns: 1, vr: 5, ..Default::default() })).hex().into_bytes(),
             frames::df20(addr, alt, 0x10_0000_0010_0000).hex().into_bytes(),
         ],
+        Prefix::After50And60 { b, hdg_ias_of } => {
+            // the 6,0 "before": same bits 1-23 (heading, IAS) as the register that follows, heading LSB (= the 5,0
+            // track status bit 12) cleared, and the Mach / rate fields of a plain descent
+            let keep_hi: u64 = ((1u64 << 23) - 1) << (56 - 23);
+            let plain = valid_bds60(true);
+            let x = ((hdg_ias_of & keep_hi) & !(1u64 << (56 - 12))) | (plain & !keep_hi);
+            vec![
+                frames::df11(5, addr, 0).hex().into_bytes(),
+                frames::df20(addr, alt, frames::mb_bds17(ALL_CAPS)).hex().into_bytes(),
+                frames::df20(addr, alt, frames::mb_bds50(&b50_baselines()[b as usize % 3])).hex().into_bytes(),
+                frames::df20(addr, alt, x).hex().into_bytes(),
+            ]
+        }
         Prefix::Toggle10 { order, base, bit } => {
             // two data-link capability reports that differ in exactly one MB bit, around a full BDS 1,7
             let keep: u64 = !(0x1Fu64 << (56 - 14)); // MB bits 10-14 stay zero (the report stays a BDS 1,0)
@@ -186,6 +212,29 @@ fn b40_baselines() -> [B40; 3] {
         B40 { s_mcp: 1, mcp: 2000, s_fms: 1, fms: 2250, s_baro: 1, baro: 2132, res1: 0, s_mode: 1, mode: 2, res2: 0, s_src: 1, src: 2 },
         B40 { s_mcp: 1, mcp: 4000, s_fms: 1, fms: 4095, s_baro: 1, baro: 4095, res1: 0, s_mode: 1, mode: 7, res2: 0, s_src: 1, src: 3 },
     ]
+}
+
+/// registers that carry the status bits of BOTH 5,0 and 6,0 (bits 1,12,13,24,35,46): the precedence
+/// 5,0 > 6,0 is decided by the plausibility of the 5,0 reading (|GS-TAS| < 200 etc.), so the fields
+/// that the two layouts share are swept on a grid around those limits
+pub fn dual_layout_mbs() -> Vec<u64> {
+    let mut v: Vec<u64> = vec![];
+    for b in b60_baselines() {
+        for mach in [1u32, 25, 50, 55, 100, 150, 195, 250, 300] {
+            for ivv_sign in 0..2 {
+                let mut ivv = 0;
+                while ivv < 512 {
+                    for hdg_lsb_roll in [1u32, 57, 285, 301] {
+                        // bit 12 = heading LSB must be 1 for the 5,0 track status; heading value odd
+                        let hdg = (hdg_lsb_roll << 1 | 1) & 0x3FF;
+                        v.push(frames::mb_bds60(&B60 { hdg_sign: 0, hdg, mach, ivv_sign, ivv, ..b }));
+                    }
+                    ivv += 7;
+                }
+            }
+        }
+    }
+    v
 }
 
 /// the MB values of the register sweeps
@@ -248,24 +297,7 @@ pub fn sweep_mbs(thorough: bool) -> Vec<u64> {
             v.push(frames::mb_bds60(&B60 { s_hdg: bits & 1, s_ias: (bits >> 1) & 1, s_mach: (bits >> 2) & 1, s_baro: (bits >> 3) & 1, s_ivv: (bits >> 4) & 1, ..b }));
         }
     }
-    // registers that carry the status bits of BOTH 5,0 and 6,0 (bits 1,12,13,24,35,46): the precedence
-    // 5,0 > 6,0 is decided by the plausibility of the 5,0 reading (|GS-TAS| < 200 etc.), so the fields
-    // that the two layouts share are swept on a grid around those limits
-    for b in b60_baselines() {
-        for mach in [1u32, 25, 50, 55, 100, 150, 195, 250, 300] {
-            for ivv_sign in 0..2 {
-                let mut ivv = 0;
-                while ivv < 512 {
-                    for hdg_lsb_roll in [1u32, 57, 285, 301] {
-                        // bit 12 = heading LSB must be 1 for the 5,0 track status; heading value odd
-                        let hdg = (hdg_lsb_roll << 1 | 1) & 0x3FF;
-                        v.push(frames::mb_bds60(&B60 { hdg_sign: 0, hdg, mach, ivv_sign, ivv, ..b }));
-                    }
-                    ivv += 7;
-                }
-            }
-        }
-    }
+    v.extend(dual_layout_mbs());
     // BDS 1,7: single capability bits, pairs with the 2,0 bit, a stride of all 2^24 words, reserved bits
     for i in 0..24 {
         v.push(frames::mb_bds17(1 << i));
@@ -401,6 +433,24 @@ fn run(ctx: &mut Ctx) {
                     ctx.count("sweep:1,0-one-bit-context");
                     run_sweep(ctx, &cfg, false, Prefix::Toggle10 { order, base, bit }, 20, &small);
                 }
+            }
+        }
+    }
+    // a register valid in both layouts after the row has seen an unambiguous 5,0 and an unambiguous 6,0 with
+    // nearly the same heading and IAS (5,0 still has precedence, whatever the row holds)
+    for opts in [&[][..], &["-U"][..]] {
+        let cfg = Cfg::new(opts);
+        for (k, d) in dual_layout_mbs().into_iter().enumerate() {
+            if !ctx.tier.thorough() && k % 7 != 0 {
+                continue;
+            }
+            job += 1;
+            if !ctx.mine(job) {
+                continue;
+            }
+            for b in 0..3u8 {
+                ctx.count("sweep:dual-layout after unambiguous 5,0 and 6,0");
+                run_sweep(ctx, &cfg, false, Prefix::After50And60 { b, hdg_ias_of: d }, 20, &[d]);
             }
         }
     }
